@@ -1,7 +1,7 @@
 #!/venv/bin/python
 """Write the task files for independent sub-agents that produce behaviour-PRESERVING refactorings.
 
-usage: gen_neutral_prompts.py <outdir> <worktree-prefix> [small]
+usage: gen_neutral_prompts.py <outdir> <worktree-prefix> [small|medium]
   one file <outdir>/prompt_P<k>.txt per agent; the agent gets ONLY that text and its own scratch worktree.
   small: six edits of one to ten lines each instead of four substantial refactorings.
 """
@@ -48,9 +48,14 @@ if style == "small":
     T = T.replace("Make them SUBSTANTIAL: 30-120 changed lines each, and each of a DIFFERENT KIND (e.g. helper extraction; control-flow restructuring; data-structure or iteration idiom change; renaming plus moving code).", "Keep them SMALL: one to ten changed lines each -- the kind of touch-up that goes into an ordinary maintenance commit -- and each of a DIFFERENT KIND. Examples of kinds: an equivalent operator or test (`not x is None` -> `x is not None`, `len(xs) == 0` -> `not xs` where xs is known to be a list, De Morgan, swapping the arms of an if/else with the test negated); a renamed local variable or a temporary introduced / removed; `for` + append turned into a comprehension or back; an early `continue`/`return` instead of nesting; keyword arguments instead of positional ones in an internal call (or back); two independent statements swapped; `x = x + [y]`-free equivalent list building where no aliasing is involved; a tuple instead of a list for a literal that is only iterated; `isinstance(x, (A, B))` for two tests; a conditional expression for a four-line if/else; an added `assert` or type annotation or comment; a constant hoisted to module level. Prefer edits INSIDE the functions of your focus area that decide behaviour (the tests, loops, raises, returns), not in docstrings only.")
     T = T.replace("`{out}/P{k}/a/` ... `d/`", "`{out}/P{k}/a/` ... `f/`")
     T = T.replace("a short table of the four refactorings", "a short table of the six edits")
+if style == "medium":
+    T = T.replace("Produce FOUR independent, strictly BEHAVIOUR-PRESERVING refactorings (`a`, `b`, `c`, `d`), each applied alone to a clean tree.", "Produce FIVE independent, strictly BEHAVIOUR-PRESERVING refactorings (`a` ... `e`), each applied alone to a clean tree.")
+    T = T.replace("Make them SUBSTANTIAL: 30-120 changed lines each, and each of a DIFFERENT KIND (e.g. helper extraction; control-flow restructuring; data-structure or iteration idiom change; renaming plus moving code).", "Make them MEDIUM-SIZED: 10-40 changed lines each, confined to ONE function (or one function plus a new small helper), and each of a DIFFERENT KIND. Kinds to choose from: a nested if/else ladder flattened into guard clauses (or the reverse); a flag variable replaced by for/else, by an early return, or by any()/next(); a loop with append turned into a comprehension or generator expression (or back) where the laziness cannot be observed; a repeated expression bound to a well-named local (where it is free of side effects) or a pointless local inlined; a small private helper extracted and called from one or two places (keep the order of effects); two adjacent loops over the same sequence fused, or one split, where their bodies are independent; try/finally rewritten with a context manager defined in the same module; a dict/tuple lookup instead of an if/elif chain over constants; positional arguments turned into keyword arguments throughout a function; `x = []` + conditional appends turned into list concatenation of conditional pieces; string building by `.format` turned into f-strings or `''.join` with byte-identical output; a type-comment style changed to annotations. Prefer the code that DECIDES behaviour (tests, loops, raises, returns, stores) over cosmetics.")
+    T = T.replace("`{out}/P{k}/a/` ... `d/`", "`{out}/P{k}/a/` ... `e/`")
+    T = T.replace("a short table of the four refactorings", "a short table of the five refactorings")
 for k, focus in FOCUS.items():
     wt = "%s%d" % (prefix, k)
-    if style == "small":
+    if style in ("small", "medium"):
         focus = focus.split(" Ideas:")[0]
     open(os.path.join(out, "prompt_P%d.txt" % k), "w").write(T.format(wt=wt, out=out, k=k, focus=focus))
 print("wrote", len(FOCUS), "prompts")
